@@ -59,6 +59,7 @@ const (
 	KGradRaw  // generate.Generator.SetGradient(shape U, Spread, Stops, F as Aff3)
 	KPathData // generate.Generator.SetPathData(S, U)
 	KMDPath   // mdicons.ParsePathData(dst, S, U, 48, {0,0}, 48); ClosePathEndPath
+	KMDIcon   // mdicons.ParsePath(dst, &Path{D: S, Opacity: F[0]}, adjs, 48, {0,0}, 48, one circle F[1..3] when F[3] != 0)
 	KSetHiRes // Encoder only: set HighResolutionCoordinates = Incr (no-op elsewhere)
 	KBytes    // Encoder only: Bytes() probe (no-op elsewhere)
 	KLOD      // Encoder only: LOD() probe
@@ -76,7 +77,7 @@ var kindNames = [...]string{
 	KRelCubeTo: "RelCubeTo", KAbsArcTo: "AbsArcTo", KRelArcTo: "RelArcTo", KCSel: "CSel", KNSel: "NSel",
 	nBaseKinds: "?", KReadBackC: "ReadBackCSel", KReadBackN: "ReadBackNSel", KGradLinear: "SetLinearGradient",
 	KGradCircular: "SetCircularGradient", KGradElliptical: "SetEllipticalGradient", KGradRaw: "SetGradient",
-	KPathData: "SetPathData", KMDPath: "ParsePathData", KSetHiRes: "HighResolutionCoordinates=",
+	KPathData: "SetPathData", KMDPath: "ParsePathData", KMDIcon: "mdicons.ParsePath", KSetHiRes: "HighResolutionCoordinates=",
 	KBytes: "Bytes", KLOD: "LOD",
 }
 
@@ -226,6 +227,8 @@ func (o Op) String() string {
 			sb.WriteString(" " + fstr(f))
 		}
 		sb.WriteString(")")
+	case KMDIcon:
+		fmt.Fprintf(&sb, "(%q opacity=%s circle=(%s %s r=%s))", o.S, fstr(o.F[0]), fstr(o.F[1]), fstr(o.F[2]), fstr(o.F[3]))
 	case KPathData, KMDPath:
 		fmt.Fprintf(&sb, "(%q adj=%d)", o.S, o.U)
 		if o.F[0] != 0 {
